@@ -42,6 +42,7 @@ type Plan struct {
 	Schedule Schedule    `json:"schedule"`
 	StepCap  int64       `json:"step_cap,omitempty"`
 	Record   string      `json:"record,omitempty"`
+	Foreign  bool        `json:"foreign_possible,omitempty"`
 	Grants   bool        `json:"want_grants,omitempty"`
 }
 
@@ -136,7 +137,7 @@ func main() {
 			}
 		}
 	}
-	s := &zzsimrt.Sched{RecordFD: -1, StepCap: p.StepCap, HotSites: p.Schedule.HotSites, PoolSeed: p.Schedule.PoolSeed}
+	s := &zzsimrt.Sched{RecordFD: -1, StepCap: p.StepCap, HotSites: p.Schedule.HotSites, PoolSeed: p.Schedule.PoolSeed, ForeignPossible: p.Foreign}
 	if p.Record != "" {
 		fd, err := syscall.Open(p.Record, syscall.O_WRONLY|syscall.O_CREAT|syscall.O_TRUNC, 0644)
 		if err != nil {
